@@ -43,6 +43,26 @@ def letters(res):
     return out
 
 
+def sample_multi(hists, cap, rnd):
+    """multi-stream histories: first those that change the window of a stream that is not the newest one and address the
+    renewed id afterwards, then the rest"""
+    def interesting(h):
+        created = 0
+        for i, x in enumerate(h):
+            v, a, t, e = x.split("|")
+            if v == "stream" and e == "ok":
+                created += 1
+            if v == "stream_change_window" and e == "ok" and t.startswith("h") and int(t[1:]) < created:
+                if any(y.split("|")[2] == t for y in h[i + 1:]):
+                    return True
+        return False
+    good = [h for h in hists if interesting(h)]
+    rest = [h for h in hists if not interesting(h)]
+    rnd.shuffle(good)
+    rnd.shuffle(rest)
+    return (good[:cap * 3 // 4] + rest)[:cap]
+
+
 def sample_histories(hists, cap, rnd):
     """all histories that address a live handle, then histories starting with a successful open, then the rest"""
     def score(h):
@@ -106,7 +126,8 @@ def binding_selftest(ctx, cases, v, sw):
 def driver_args(ctx, binp, adlt, scn, trace, nrand):
     quick = ctx.quick()
     return [binp, "--adlt", adlt, "--work", ctx.work, "--scenarios", scn, "--random", str(nrand), "--seed", str(ctx.seed),
-            "--out", trace, "--conns", "12", "--long-max", "120" if quick else "200", "--big", "6000" if quick else "40000"]
+            "--out", trace, "--conns", "12", "--long-max", "120" if quick else "200", "--big", "6000" if quick else "40000",
+            "--huge", "560000", "--huge-wait-ms", "5000"]      # > 512 Ki messages: more than the server's bounded channels hold
 
 
 def check(ctx):
@@ -114,21 +135,21 @@ def check(ctx):
     binp = c.build_harness("c15")
     adlt = c.build_adlt_bin()
     rnd = random.Random(ctx.seed)
-    nrand = 40 if quick else 400
+    nrand = 45 if quick else 400
     # (a) model checking of the session model (reply table total and consistent, liveness)
     c.tlc_must_pass(ctx, "model", "Remote.tla", "Remote_quick.cfg" if quick else "Remote_thorough.cfg", timeout=3000)
     if not quick:
         c.tlc_must_pass(ctx, "model-full", "Remote.tla", "Remote_thorough_full.cfg", timeout=3000)
     # (b) scenario emission
     hists = []
-    plan = [("Remote_emit_quick.cfg", 1500)] if quick else [("Remote_emit_full2.cfg", 8000), ("Remote_emit_quick.cfg", 6000),
-                                                           ("Remote_emit_core4.cfg", 6000)]
+    plan = [("Remote_emit_quick.cfg", 1300), ("Remote_emit_multi.cfg", 300)] if quick else [
+        ("Remote_emit_full2.cfg", 8000), ("Remote_emit_quick.cfg", 6000), ("Remote_emit_core4.cfg", 6000), ("Remote_emit_multi.cfg", 3000)]
     emitted = 0
     for cfg, cap in plan:
         res = c.tlc_must_pass(ctx, "emit-" + cfg.split("_emit_")[1].split(".")[0], "Remote.tla", cfg, timeout=3000)
         hs = letters(res)
         emitted += len(hs)
-        hists += sample_histories(hs, cap, rnd)
+        hists += sample_multi(hs, cap, rnd) if "multi" in cfg else sample_histories(hs, cap, rnd)
     scn = ctx.path("scenarios.ndjson")
     with open(scn, "w") as f:
         for h in hists:
